@@ -715,13 +715,13 @@ class ModelsWorld(World):
                 klass = "portable" if how == "to_portable_file" else "crash"
                 raise Violation(klass, opname, pred, type(res).__name__, f"{how} of a {r.cls} model raised {type(res).__name__}: {str(res)[:160]}")
             self.probes["save_failed_under_fault"] += 1
+            if "close_eio" in fired:
+                self.probes["fault_surfaced_in_close"] += 1
             # a failed save is not a logical operation: nobody changed, the saver included
             self._isolation(opname, pred)
             return "io_error:" + type(res).__name__
         if faulted:
             self.probes["save_completed_despite_fault"] += 1
-        if "close_eio" in fired:
-            self.probes["fault_surfaced_in_close"] += 1
         self._isolation(opname, pred)
         rec = {"how": how, "tname": r.tname, "cls": r.cls, "log": _copy.deepcopy(r.log), "raised": list(r.raised),
                "cheap": self._cheap(r), "deep": self._deep(r), "pred": pred}
